@@ -126,9 +126,10 @@ def fresh_like(ctx, name, v):
 
 
 class LoopCtl:
-    def __init__(self, site, iterable, locs, bound, mutated, targets=()):
+    def __init__(self, site, iterable, locs, bound, mutated, targets=(), live=None):
         ctx = Ctx.cur
         self.target_names = tuple(targets)
+        self.live_after = None if live is None else set(live)
         self.ctx, self.site = ctx, site
         self.spec = ACTIVE_LOOPS[site]
         self.is_for = iterable is not None
@@ -204,11 +205,17 @@ class LoopCtl:
     def hv(self, name):
         if name in self.spec.keep:
             return self.entry.get(name, UNBOUND)
+        if name not in self.bound_names and name not in self.spec.fresh:
+            # only mutated in place: the object was havoc'd in place at loop entry
+            return self.entry.get(name, UNBOUND)
         ctx = self.ctx
         pre = self.entry.get(name, UNBOUND)
         ns = _NS(dict(self.entry), self)
         if pre is UNBOUND:
             # first bound inside the loop: after the loop it is bound iff some iteration bound it
+            if self.live_after is not None and name not in self.live_after and name not in self.spec.fresh:
+                # never read after the loop: whether it is bound or not cannot matter; poison if it is read anyway
+                return Poison(name, self.site)
             if name in self.target_names:
                 flag = SBool(self.j.t > 0)      # a loop target is bound iff at least one iteration ran
             else:
@@ -277,8 +284,8 @@ class _VC:
         return Ctx.cur is not None and site in ACTIVE_LOOPS
 
     @staticmethod
-    def loop(site, iterable, locs, bound, mutated, targets=()):
-        return LoopCtl(site, iterable, locs, bound, mutated, targets)
+    def loop(site, iterable, locs, bound, mutated, targets=(), live=None):
+        return LoopCtl(site, iterable, locs, bound, mutated, targets, live)
 
     @staticmethod
     def emit(value):
@@ -346,6 +353,7 @@ class _VC:
             return gen()
         if conds:
             raise Unsupported("filtered comprehension over a symbolic iterable")
+        elt_fn = _freeze_closure(elt_fn)   # a comprehension is evaluated *now*: later rebinding must not leak in
         it = B.indexable(iterable)
         n = B.vc_len(it)
         if kind in ("list", "gen"):
@@ -354,6 +362,18 @@ class _VC:
             from .symmap import mapped_dict
             return mapped_dict(it, n, elt_fn)
         raise Unsupported(f"{kind} comprehension over a symbolic iterable")
+
+
+def _freeze_closure(fn):
+    if not getattr(fn, "__closure__", None):
+        return fn
+    cells = []
+    for c in fn.__closure__:
+        try:
+            cells.append(types.CellType(c.cell_contents))
+        except ValueError:      # empty cell (variable not yet bound)
+            cells.append(c)
+    return types.FunctionType(fn.__code__, fn.__globals__, fn.__name__, fn.__defaults__, tuple(cells))
 
 
 VC = _VC()
